@@ -534,6 +534,51 @@ fn splice(d: &dyn Dialect, c: &Value) -> Value {
     }
 }
 
+/// Exhaustive insertion: every fragment after every non-whitespace token of the text.  Returns
+/// the mutants that are ACCEPTED and fail the round trip or the content comparison (at most 8),
+/// with counts; the caller re-runs those through `roundtrip` / `content` for the full report.
+fn sweep(d: &dyn Dialect, c: &Value) -> Value {
+    let sql = c["sql"].as_str().unwrap_or("");
+    let unescape = c["unescape"].as_bool().unwrap_or(true);
+    let trailing = c["trailing"].as_bool().unwrap_or(false);
+    let frags: Vec<&str> = c["frags"].as_array().map(|a| a.iter().filter_map(|x| x.as_str()).collect()).unwrap_or_default();
+    let toks = match tokenize_loc(d, sql, unescape) {
+        Ok(t) => t,
+        Err(_) => return json!({"status": "untokenizable"}),
+    };
+    let offs = token_offsets(sql, &toks);
+    let chars: Vec<char> = sql.chars().collect();
+    let ends: Vec<usize> = toks.iter().enumerate()
+        .filter(|(i, t)| !matches!(t.token, Token::Whitespace(_) | Token::EOF) && offs[*i + 1] != usize::MAX && offs[*i + 1] <= chars.len())
+        .map(|(i, _)| offs[i + 1]).collect();
+    let (mut tried, mut accepted, mut panics) = (0u64, 0u64, 0u64);
+    let mut fails: Vec<Value> = vec![];
+    for &e in &ends {
+        let pre: String = chars[..e].iter().collect();
+        let post: String = chars[e..].iter().collect();
+        for f in &frags {
+            let m = format!("{pre} {f} {post}");
+            tried += 1;
+            match parse_caught(d, &m, unescape, trailing) {
+                Err(msg) => {
+                    panics += 1;
+                    if fails.len() < 8 { fails.push(json!({"mutated": m, "frag": f, "why": "panic", "detail": msg})); }
+                }
+                Ok(Err(_)) => {}
+                Ok(Ok(v)) => {
+                    accepted += 1;
+                    let rt = roundtrip_parsed(d, &v, unescape, trailing);
+                    let ct = if has_copy_payload(&v) { json!({"status": "ok"}) } else { content_cmp(d, &m, &v, unescape) };
+                    if (rt["status"] != "ok" || ct["status"] != "ok") && fails.len() < 8 {
+                        fails.push(json!({"mutated": m, "frag": f, "why": if rt["status"] != "ok" { "roundtrip" } else { "content" }}));
+                    }
+                }
+            }
+        }
+    }
+    json!({"status": "swept", "tried": tried, "accepted": accepted, "panics": panics, "fails": fails})
+}
+
 fn main() {
     quiet_panics();
     let mode = std::env::args().nth(1).unwrap_or_default();
@@ -548,6 +593,7 @@ fn main() {
                 "content" => content(&*d, sql, unescape, trailing),
                 "splice" => splice(&*d, c),
                 "neutral" => neutral(&*d, sql, unescape, trailing),
+                "sweep" => sweep(&*d, c),
                 _ => json!({"status": "bad-mode"}),
             }
         }));
